@@ -1,0 +1,112 @@
+//go:build verif
+
+// Contracts for the unbounded mailbox (property C01; the queue order part of C02). Comment-only: compiled
+// under the build tag `verif` and read by /verif/engine (govc).
+//
+// What these contracts are about: ONE run of each function with no other goroutine interfering (the
+// sync/atomic operations are read as plain accesses). They pin down the hand-over discipline of the
+// consumer (processHandle / process) and the wake-up rule of the producers (Enqueue / Resume); the
+// interleaving argument on top of them (at most one consumer at any instant under racing senders) is not
+// a per-call property and is not claimed here.
+
+package mailbox
+
+// the mailbox as NewUnboundedMailbox builds it: two distinct well-formed queues, a handler; system envelopes
+// live in systemBuffer only and user envelopes in buffer only; the two counters agree with the queue sizes
+//@ pure mbwf(m *UnboundedMailbox) bool =
+//@     m != nil && (m.status == 0 || m.status == 1) && m.buffer != nil && m.systemBuffer != nil && m.buffer != m.systemBuffer && m.handler != nil &&
+//@     queues.wf(m.buffer) && queues.wf(m.systemBuffer) && m.buffer.content != m.systemBuffer.content &&
+//@     arr(m.buffer.content.buffer) != arr(m.systemBuffer.content.buffer) &&
+//@     arr(m.buffer.content.buffer) != obj(m) && arr(m.systemBuffer.content.buffer) != obj(m) &&
+//@     !held(m.buffer.lock) && !held(m.systemBuffer.lock) &&
+//@     (forall i mathint :: 0 <= i && i < queues.size(m.buffer) ==> implements(queues.at(m.buffer, i), "vivid.Envelop")) &&
+//@     (forall i mathint :: 0 <= i && i < queues.size(m.systemBuffer) ==> implements(queues.at(m.systemBuffer, i), "vivid.Envelop"))
+//@ pure counted(m *UnboundedMailbox) bool =
+//@     m.num == queues.size(m.buffer) && m.systemNum == queues.size(m.systemBuffer)
+
+//@ func NewUnboundedMailbox
+//@   requires 1 <= initialSize && handler != nil
+//@   ensures  result != nil && fresh(result) && mbwf(result) && counted(result)
+//@   ensures  queues.size(result.buffer) == 0 && queues.size(result.systemBuffer) == 0 && result.status == 0 && result.paused == 0
+
+//@ func (*UnboundedMailbox).Pause
+//@   modifies m.paused
+//@   ensures  m.paused == 1
+
+//@ func (*UnboundedMailbox).IsPaused
+//@   ensures  result == (m.paused == 1)
+
+// Resume: a mailbox that was paused is un-paused, and if nobody is processing a consumer is started - the
+// waiting user mail needs no later send. At most one consumer is started, and none when one is running.
+//@ func (*UnboundedMailbox).Resume
+//@   modifies m.paused, m.status, ghost(spawned)
+//@   ensures  m.paused == 0 || (old(m.paused) != 1 && m.paused == old(m.paused))
+//@   ensures  old(m.paused) == 1 && old(m.status) == 0 ==> m.status == 1 && ghost(spawned) == old(ghost(spawned)) + 1
+//@   ensures  old(m.paused) == 1 && old(m.status) != 0 ==> m.status == old(m.status) && ghost(spawned) == old(ghost(spawned))
+//@   ensures  old(m.paused) != 1 ==> m.status == old(m.status) && ghost(spawned) == old(ghost(spawned))
+
+// Enqueue: the envelope is appended to the queue of its class (nothing else in either queue moves), it is
+// counted, and on return a consumer is running: started here if the mailbox was idle, never a second one.
+// (resource assumption: fewer than 2^31-1 envelopes are queued, so the int32 counters do not wrap)
+//@ func (*UnboundedMailbox).Enqueue
+//@   requires mbwf(m) && envelop != nil && m.num < 2147483647 && m.systemNum < 2147483647
+//@   modifies m.buffer.len, m.buffer.content, m.buffer.content.tail, m.buffer.content.buffer[*], m.systemBuffer.len, m.systemBuffer.content, m.systemBuffer.content.tail, m.systemBuffer.content.buffer[*], m.num, m.systemNum, m.status, ghost(spawned), anyold
+//@   ensures  queues.wf(m.buffer) && queues.wf(m.systemBuffer)
+//@   ensures  envSystem(envelop) ==> queues.size(m.systemBuffer) == old(queues.size(m.systemBuffer)) + 1 && m.systemNum == old(m.systemNum) + 1 && m.num == old(m.num) && queues.size(m.buffer) == old(queues.size(m.buffer))
+//@   ensures  envSystem(envelop) ==> queues.at(m.systemBuffer, old(queues.size(m.systemBuffer))) == iface(envelop)
+//@   ensures  !envSystem(envelop) ==> queues.size(m.buffer) == old(queues.size(m.buffer)) + 1 && m.num == old(m.num) + 1 && m.systemNum == old(m.systemNum) && queues.size(m.systemBuffer) == old(queues.size(m.systemBuffer))
+//@   ensures  !envSystem(envelop) ==> queues.at(m.buffer, old(queues.size(m.buffer))) == iface(envelop)
+//@   ensures  forall i mathint :: 0 <= i && i < old(queues.size(m.systemBuffer)) ==> queues.at(m.systemBuffer, i) == old(queues.at(m.systemBuffer, i))
+//@   ensures  forall i mathint :: 0 <= i && i < old(queues.size(m.buffer)) ==> queues.at(m.buffer, i) == old(queues.at(m.buffer, i))
+//@   ensures  m.status == 1
+//@   ensures  old(m.status) == 0 ==> ghost(spawned) == old(ghost(spawned)) + 1
+//@   ensures  old(m.status) != 0 ==> ghost(spawned) == old(ghost(spawned))
+
+// processHandle - the consumer's inner loop. Hand-over discipline, stated at the calls themselves (pending/last
+// are ghost variables of this function: "a popped envelope is waiting to be handed over"):
+//   * a successful Pop is followed by exactly one HandleEnvelop, of the value popped, before the next Pop
+//     (never dropped, never duplicated);
+//   * an envelope taken from the user queue is handed over only if the pause flag read since the last
+//     hand-over was clear (paused => user mail waits), and only after the system queue reported empty;
+//   * on return nothing it may process is left: the system queue is empty and the mailbox is paused or the
+//     user queue is empty.
+// The handler is the actor: it may send to, pause and resume this very mailbox. Assumed of it: it leaves the
+// mailbox well-formed and only appends to the queues.
+//@ func (*UnboundedMailbox).processHandle
+//@   ghostvar pending int
+//@   ghostvar last any
+//@   callspec Pop requires pending == 0
+//@   callspec Pop requires arg0 == m.buffer ==> m.paused != 1 && queues.size(m.systemBuffer) == 0
+//@   callspec Pop sets pending = (result.1 ? 1 : 0), last = result.0
+//@   callspec HandleEnvelop requires pending == 1 && iface(arg0) == last
+//@   callspec HandleEnvelop sets pending = 0
+//@   callspec HandleEnvelop ensures mbwf(m) && counted(m)
+//@   requires mbwf(m) && counted(m)
+//@   modifies anyold, gmap(handled), gmap(handledn)
+//@   ensures  pending == 0
+//@   ensures  mbwf(m) && counted(m)
+//@   ensures  queues.size(m.systemBuffer) == 0 && (m.paused == 1 || queues.size(m.buffer) == 0)
+//@   ensures  gcount(handledn, 0) >= old(gcount(handledn, 0))
+// it does work whenever there is work it is allowed to do
+//@   ensures  old(queues.size(m.systemBuffer)) > 0 || (old(m.paused) != 1 && old(queues.size(m.buffer)) > 0) ==> gcount(handledn, 0) > old(gcount(handledn, 0))
+//@ loop (*UnboundedMailbox).processHandle#1
+//@   modifies anyold, gmap(handled), gmap(handledn)
+//@   invariant pending == 0 && mbwf(m) && counted(m)
+//@   invariant gcount(handledn, 0) > old(gcount(handledn, 0)) || (gcount(handledn, 0) == old(gcount(handledn, 0)) && queues.size(m.systemBuffer) == old(queues.size(m.systemBuffer)) && queues.size(m.buffer) == old(queues.size(m.buffer)) && m.paused == old(m.paused))
+//@ loop (*UnboundedMailbox).processHandle#2
+//@   modifies anyold, gmap(handled), gmap(handledn)
+//@   invariant pending == 0 && mbwf(m) && counted(m)
+//@   invariant gcount(handledn, 0) > old(gcount(handledn, 0)) || (gcount(handledn, 0) == old(gcount(handledn, 0)) && queues.size(m.systemBuffer) == old(queues.size(m.systemBuffer)) && queues.size(m.buffer) == old(queues.size(m.buffer)) && m.paused == old(m.paused))
+
+// process - the consumer goroutine. It gives the token back (status idle) and looks again, so mail that
+// arrived while it was finishing is not stranded: when it returns, status is idle and nothing it may process is
+// left. And it does not spin: every trip round the retry loop hands over at least one envelope.
+//@ func (*UnboundedMailbox).process
+//@   requires mbwf(m) && counted(m)
+//@   modifies anyold, gmap(handled), gmap(handledn), m.status
+//@   ensures  mbwf(m) && counted(m) && m.status == 0
+//@   ensures  queues.size(m.systemBuffer) == 0 && (m.paused == 1 || queues.size(m.buffer) == 0)
+//@ loop (*UnboundedMailbox).process#1
+//@   modifies anyold, gmap(handled), gmap(handledn), m.status
+//@   invariant mbwf(m) && counted(m)
+//@   increases gcount(handledn, 0)
